@@ -68,6 +68,9 @@ func main() {
 		for _, sc := range boundaryScripts() {
 			r.runScript(sc)
 		}
+		for _, sc := range lruScripts() {
+			r.runScript(sc)
+		}
 		for _, sc := range exhaustiveSmall() {
 			r.runScript(sc)
 		}
